@@ -127,7 +127,9 @@ ASSUMPTIONS = [
 TRUSTED = ['C04: parse (print v) = v for Python shortest-repr printing and float() (hypothesis of C04_roundtrip_printed)']
 
 UCD_TYPES = ['line', 'spring', 'tri', 'quad', 'tet', 'tet2', 'pyr', 'prism', 'hex', 'hexprism']
-NAMES = ['T', 'U', 'DISPLACEMENT', 'NodalSTRESS', 'tet', 'hex2', 'inf', 'E12', 'x_1', 'unit', 'ELEMENT', 'p', 'Mises']
+NAMES = ['T', 'U', 'DISPLACEMENT', 'NodalSTRESS', 'tet', 'hex2', 'inf', 'E12', 'x_1', 'unit', 'ELEMENT', 'p', 'Mises',
+         # round 6 (seeded C04-11): a name is any token without a comma or a blank, not an identifier
+         'mode#1', 'damage#step3', 'sigma-xx', 'T[K]', 'a.b', 'u/L', 'p+', '#3', 'x!', '!x', 'q:r', '50%', "d'", 'f(x)']
 ALNUM = 'ABCDEFGHIJKLMNOPQRSTUVWXYZabcdefghijklmnopqrstuvwxyz0123456789_'
 SPECIAL = [float('nan'), 0.0, -0.0, 5e-324, -5e-324, 2.2250738585072014e-308, -2.225073858507201e-308, 1e300, -1e300,
            1e-300, 1.7976931348623157e308, -1.7976931348623157e308, float('inf'), float('-inf'), 0.1, 1 / 3, 1e22, 1e23,
